@@ -53,16 +53,19 @@ const (
 	SecLocObj          // lo = H.Obj(r) ; lo.Ping(r)               a method called on an object kept in a local
 	SecLocObjReader    // lo.Ping(r) without assigning lo          must fail
 	SecLocAlias        // la = AL.Base; la += r; lb = ALQ[0]; lb *= 3; H.Alias(...)   locals bound from injected slots, then updated in place
+	SecFnArgKind       // fa(r, VS<r>)                             an injected *function* handed a string for a numeric parameter
+	SecFnArgCount      // fa(r)                                    an injected function called with too few arguments (always fails)
+	SecLocStruct       // ls = H.Pt(r); ls.Y = 5; H.Y              a struct kept by value in a local, one field assigned (may fail)
 	SecOptName         // H.OptSet(r); ov = r+300                  a plain name that some calls inject (then it is shared) and others do not (then it is a local)
 	numSecKinds
 )
 
-var secNames = [...]string{"Y", "Call", "AsgCall", "AsgKind", "Div", "Idx", "Nil", "Unknown", "Arg", "IfKind", "IfIdx", "IfNil", "Elif", "ForKind", "ForStep", "Unb", "UnbCont", "Conc", "Local", "Reader", "Stop", "ShW", "ShR", "Upd", "Echo", "Opt", "IfCall", "ForRange", "MapIdx", "SetKind", "SetNil", "RangeKey", "ThreeNil", "IfThreeNil", "ArgCount", "NilMapSet", "FuncCall", "IfFunc", "ThreeSet", "LocObj", "LocObjReader", "LocAlias", "OptName"}
+var secNames = [...]string{"Y", "Call", "AsgCall", "AsgKind", "Div", "Idx", "Nil", "Unknown", "Arg", "IfKind", "IfIdx", "IfNil", "Elif", "ForKind", "ForStep", "Unb", "UnbCont", "Conc", "Local", "Reader", "Stop", "ShW", "ShR", "Upd", "Echo", "Opt", "IfCall", "ForRange", "MapIdx", "SetKind", "SetNil", "RangeKey", "ThreeNil", "IfThreeNil", "ArgCount", "NilMapSet", "FuncCall", "IfFunc", "ThreeSet", "LocObj", "LocObjReader", "LocAlias", "FnArgKind", "FnArgCount", "LocStruct", "OptName"}
 
 // FaultCapable reports whether a section hosts a fault point.
 func FaultCapable(k int) bool {
 	switch k {
-	case SecCall, SecAsgCall, SecAsgKind, SecDiv, SecIdx, SecNil, SecUnknown, SecArg, SecIfKind, SecIfIdx, SecIfNil, SecElif, SecForKind, SecForStep, SecUnb, SecUnbCont, SecConc, SecIfCall, SecForRange, SecMapIdx, SecSetKind, SecSetNil, SecThreeNil, SecIfThreeNil, SecArgCount, SecNilMapSet, SecFuncCall, SecIfFunc, SecThreeSet:
+	case SecCall, SecAsgCall, SecAsgKind, SecDiv, SecIdx, SecNil, SecUnknown, SecArg, SecIfKind, SecIfIdx, SecIfNil, SecElif, SecForKind, SecForStep, SecUnb, SecUnbCont, SecConc, SecIfCall, SecForRange, SecMapIdx, SecSetKind, SecSetNil, SecThreeNil, SecIfThreeNil, SecArgCount, SecNilMapSet, SecFuncCall, SecIfFunc, SecThreeSet, SecFnArgKind, SecFnArgCount:
 		return true
 	}
 	return false
@@ -137,7 +140,7 @@ func (r *RuleDef) YieldKs() []int {
 		case SecY:
 			ks = append(ks, yk)
 			yk++
-		case SecRangeKey, SecLocObj, SecLocAlias:
+		case SecRangeKey, SecLocObj, SecLocAlias, SecLocStruct:
 			ks = append(ks, yk)
 			yk++
 		case SecIfFunc:
@@ -170,8 +173,83 @@ const (
 	ChThree    = 4 // Req.In.K(r,4)   three-level call
 	ChAsgLoc2  = 5 // q = H.K(r,5)
 	ChLocField = 6 // H.KA(r,6, lp.X)   reads a field of a rule-local struct assigned before the block
-	NumChild   = 7
+	ChAsgBad   = 7 // Req.Sl[VK<r>] = H.K(r,7)   an assignment that fails in the store itself (index out of range) when planned to
+	NumChild   = 8
+	ChPre      = 8 // not a child: the locals the children assign are declared before the block (the children overwrite them)
 )
+
+// readerNames are the local names a reader section may try to read (none of them assigned by the reader's own rule).
+var readerNames = []string{"x", "p0", "q0", "lo", "la", "ls", "p1", "e0_0", "lb", "q1", "lp0"}
+
+// AssignedLocals lists the reader-visible local names the rule's own sections assign.
+func (r *RuleDef) AssignedLocals() []string {
+	var out []string
+	for p, s := range r.Secs {
+		switch s.Kind {
+		case SecConc:
+			if s.Arg&(1<<ChAsgLocal) != 0 {
+				out = append(out, fmt.Sprintf("p%d", p))
+			}
+			if s.Arg&(1<<ChAsgLoc2) != 0 {
+				out = append(out, fmt.Sprintf("q%d", p))
+			}
+			if s.Arg&(1<<ChLocField) != 0 {
+				out = append(out, fmt.Sprintf("lp%d", p))
+			}
+			if ConcExtras(s.Arg) > 0 {
+				out = append(out, fmt.Sprintf("e%d_0", p))
+			}
+		case SecLocal, SecRangeKey:
+			out = append(out, "x")
+		case SecLocObj:
+			out = append(out, "lo")
+		case SecLocAlias:
+			out = append(out, "la", "lb")
+		case SecLocStruct:
+			out = append(out, "ls")
+		}
+	}
+	return out
+}
+
+// ReaderPref returns the preference value under which the rule's reader section reads name (-1: it cannot).
+func (r *RuleDef) ReaderPref(name string) int {
+	for pref := 0; pref < len(readerNames); pref++ {
+		if r.ReaderName(pref) == name {
+			return pref
+		}
+	}
+	return -1
+}
+
+// ReaderName is the local a rule's reader section reads: the pref-th of the names the rule itself never assigns.
+func (r *RuleDef) ReaderName(pref int) string {
+	own := map[string]bool{}
+	for p, s := range r.Secs {
+		switch s.Kind {
+		case SecConc:
+			own[fmt.Sprintf("p%d", p)], own[fmt.Sprintf("q%d", p)], own[fmt.Sprintf("lp%d", p)] = true, true, true
+			for j := 0; j < ConcExtras(s.Arg); j++ {
+				own[fmt.Sprintf("e%d_%d", p, j)] = true
+			}
+		case SecLocal, SecRangeKey:
+			own["x"] = true
+		case SecLocObj:
+			own["lo"] = true
+		case SecLocAlias:
+			own["la"], own["lb"] = true, true
+		case SecLocStruct:
+			own["ls"] = true
+		}
+	}
+	var cands []string
+	for _, n := range readerNames {
+		if !own[n] {
+			cands = append(cands, n)
+		}
+	}
+	return cands[pref%len(cands)]
+}
 
 // Render produces the rule text.  Point numbers p are section positions, so a
 // plan can name "the fault point of section i".
@@ -269,6 +347,14 @@ func (r *RuleDef) Render() string {
 			if s.Arg&(1<<ChLocField) != 0 {
 				fmt.Fprintf(&b, "lp%d = H.Obj(%d)\n", p, id)
 			}
+			if s.Arg&(1<<ChPre) != 0 {
+				if s.Arg&(1<<ChAsgLocal) != 0 {
+					fmt.Fprintf(&b, "p%d = 0\n", p)
+				}
+				if s.Arg&(1<<ChAsgLoc2) != 0 {
+					fmt.Fprintf(&b, "q%d = 0\n", p)
+				}
+			}
 			b.WriteString("conc {\n")
 			if s.Arg&(1<<ChAsgLocal) != 0 {
 				fmt.Fprintf(&b, "p%d = H.K(%d,%d)\n", p, id, p*8+ChAsgLocal)
@@ -290,6 +376,9 @@ func (r *RuleDef) Render() string {
 			}
 			if s.Arg&(1<<ChLocField) != 0 {
 				fmt.Fprintf(&b, "H.KA(%d,%d,lp%d.X)\n", id, p*8+ChLocField, p)
+			}
+			if s.Arg&(1<<ChAsgBad) != 0 {
+				fmt.Fprintf(&b, "Req.Sl[VK%d] = H.K(%d,%d)\n", id, id, p*8+ChAsgBad)
 			}
 			// further statements of all four forms ("any number and mix"): blocks well beyond a handful
 			for j := 0; j < ConcExtras(s.Arg); j++ {
@@ -322,7 +411,14 @@ func (r *RuleDef) Render() string {
 			fmt.Fprintf(&b, "x = H.Fresh(%d)\n", id)
 			hasLocal = true
 		case SecReader:
-			fmt.Fprintf(&b, "H.B(%d,%d)\nH.Same(%d,x)\n", id, p, id)
+			fmt.Fprintf(&b, "H.B(%d,%d)\nH.SameAny(%d,%s)\n", id, p, id, r.ReaderName(s.Arg))
+		case SecFnArgKind:
+			fmt.Fprintf(&b, "H.B(%d,%d)\nfa(%d, VS%d)\n", id, p, id, id)
+		case SecFnArgCount:
+			fmt.Fprintf(&b, "H.B(%d,%d)\nfa(%d)\n", id, p, id)
+		case SecLocStruct:
+			fmt.Fprintf(&b, "ls = H.Pt(%d)\nH.M(%d,%d)\nls.Y = 5\nH.Y(%d,%d)\n", id, id, p, id, yk)
+			yk++
 		case SecStop:
 			fmt.Fprintf(&b, "if H.SetStop(%d) {\nTag.StopTag = true\n}\n", id)
 		case SecShW:
